@@ -92,14 +92,14 @@ CASES = [
               "(month_of_year == 0 or week_of_year == 0) and False"),
     ctor_case("conflict-ord-month", ["year", "day_of_year", "month_of_year"],
               "month_of_year == 0 and False"),
-    # truncated (no year): month lengths of a leap year, day 366 and week 53 admitted
+    # truncated (no year): month lengths of a leap year, day 366 and the calendar's longest week year admitted
     ctor_case("trunc-md", ["month_of_year", "day_of_month"],
               "1 <= month_of_year and month_of_year <= 12 and 1 <= day_of_month"
               " and day_of_month <= dimL(True, month_of_year)", truncated=True),
     ctor_case("trunc-doy", ["day_of_year"], "1 <= day_of_year and day_of_year <= SUML",
               truncated=True),
     ctor_case("trunc-wd", ["week_of_year", "day_of_week"],
-              "1 <= week_of_year and week_of_year <= 53 and 1 <= day_of_week and day_of_week <= 7",
+              "1 <= week_of_year and week_of_year <= MAXW and 1 <= day_of_week and day_of_week <= 7",
               truncated=True),
     ctor_case("trunc-hms", HMS, T(), truncated=True,
               ensures=["self._time_zone._unknown is True and self._truncated is True"
